@@ -8,6 +8,7 @@ from .. import cfgq as Q
 from ..loader import AnalysisError
 from . import common as K
 from ..safeeval import ev, CannotEval
+from .. import safeeval as SE
 
 AR = "rpyc.core.async_.AsyncResult"
 
@@ -153,11 +154,11 @@ def run(ctx, rep):
            "AsyncResultTimeout is %s" % imp, "rpyc/core/async_.py", kind="site")
     fe = ctx.func(AR + ".expired")
     re_ = [n for n in A.walk(fe.node) if isinstance(n, ast.Return)]
-    oke = len(re_) == 1
+    oke = len(re_) >= 1
     try:
         for ready in (False, True):
             for expd in (False, True):
-                got = bool(ev(re_[0].value, {"self._is_ready": ready}, {"self.%s.expired" % TTL: lambda e=expd: e}))
+                got = bool(SE.run(fe.node, {"self._is_ready": ready}, {"self.%s.expired" % TTL: lambda e=expd: e}))
                 oke = oke and got == ((not ready) and expd)
     except (CannotEval, IndexError):
         oke = False
@@ -187,13 +188,13 @@ def run(ctx, rep):
     T = "rpyc.lib.Timeout"
     fx = ctx.func(T + ".expired")
     rx = [n for n in A.walk(fx.node) if isinstance(n, ast.Return)]
-    okx = len(rx) == 1
+    okx = len(rx) >= 1
     rows = 0
     try:
         for finite, tmax in ((True, 10.0), (False, None)):
             for now in (9.0, 10.0, 11.0):
                 rows += 1
-                got = bool(ev(rx[0].value, {"self.finite": finite, "self.tmax": tmax}, {"time.time": lambda n=now: n}))
+                got = bool(SE.run(fx.node, {"self.finite": finite, "self.tmax": tmax}, {"time.time": lambda n=now: n}))
                 okx = okx and got == (finite and now >= tmax)
     except (CannotEval, IndexError):
         okx = False
@@ -203,17 +204,17 @@ def run(ctx, rep):
            kind="table")
     ft = ctx.func(T + ".timeleft")
     rt = [n for n in A.walk(ft.node) if isinstance(n, ast.Return)]
-    okt = len(rt) == 1
+    okt = len(rt) >= 1
     try:
         for finite, tmax in ((True, 10.0), (False, None)):
             for now in (4.0, 10.0, 13.0):
-                got = ev(rt[0].value, {"self.finite": finite, "self.tmax": tmax}, {"time.time": lambda n=now: n})
+                got = SE.run(ft.node, {"self.finite": finite, "self.tmax": tmax}, {"time.time": lambda n=now: n})
                 want = max(0, tmax - now) if finite else None
                 okt = okt and got == want
     except (CannotEval, IndexError):
         okt = False
     rep.ob("R15.5", "Timeout.timeleft: remaining time clamped at 0, None when unlimited", okt,
-           "`%s`" % A.src(rt[0].value) if okt else "timeleft is `%s`" % (A.src(rt[0].value) if rt else None), ft.loc, kind="table")
+           "agrees on 6 valuations" if okt else "timeleft is not max(0, deadline - now) / None when unlimited", ft.loc, kind="table")
     fi = ctx.func(T + ".__init__")
     gi = ctx.cfg(fi)
     domi = Q.dominators(gi)
